@@ -82,6 +82,7 @@ var probeFuncs = map[string]bool{
 	"rtpconn.handleReport":                true,
 	"rtpconn.rtcpDownListener":            true,
 	"rtpconn.(*rtpDownTrack).adjustLayer": true,
+	"rtpconn.(*rtpDownTrack).getLayerInfo": true, "rtpconn.(*rtpDownTrack).setLayerInfo": true,
 	"rtpconn.(*rtpDownTrack).updateRate":  true,
 	"diskwriter.(*diskTrack).Write":       true,
 	"diskwriter.fetch":                    true,
